@@ -9,7 +9,9 @@ import (
 	"github.com/goghcrow/yae/val"
 
 	"verif/mc/engine"
+	"verif/mc/gen"
 	"verif/mc/real"
+	"verif/mc/ref"
 )
 
 // Dynamic calls through function-typed values (raw environments only) and repeated invocation of
@@ -190,5 +192,35 @@ func runDyn(c *engine.Case) *engine.Result {
 			}
 		}
 	}
+	return res
+}
+
+// verifyDyn (C11): bytecode of the dynamic-call programs, compiled against the function-typed
+// raw environment.
+func verifyDyn(c *engine.Case) *engine.Result {
+	res := &engine.Result{Execs: 1, NonTrivial: true}
+	h := real.StdHost()
+	code, accepted, refused, msg := real.CompileBytecodeRaw(h, c.Src, dynTypeEnv())
+	if !accepted || refused || code == nil {
+		res.Outcome = "not-compiled: " + stable(msg)
+		if accepted && !refused {
+			res.Violations = append(res.Violations, vf("codegen-panic", "%s: %s", c.Src, stable(msg)))
+		}
+		return res
+	}
+	vars := map[string]*gen.Ty{}
+	dynTypeEnv().ForEach(func(n string, t *types.Type) {
+		if gt, err := real.FromType(t, nil); err == nil {
+			vars[n] = gt
+		}
+	})
+	st := &ref.BCStats{}
+	env := real.BCEnvFor(real.EnvSpec{})
+	env.Vars = vars
+	if err := ref.VerifyBC(real.ToBCProgram(code), env, nil, st, 0); err != nil {
+		res.Violations = append(res.Violations, vf("bytecode-unsafe", "%s: %v", c.Src, err))
+	}
+	res.States = st.Instructions
+	res.Outcome = fmt.Sprintf("ok jumps=%d thunks=%d", st.Jumps, st.Thunks)
 	return res
 }
